@@ -649,3 +649,20 @@ package profile
 //@     invariant 0 <= $i && $i <= len(l.Line)
 //@     invariant forall id uint64 :: has(functions, id) && functions[id] != nil ==> exists k int :: 0 <= k && k < len(p.Function) && p.Function[k] == functions[id]
 //@     invariant forall j int :: 0 <= j && j < $i ==> l.Line[j].Function != nil && exists k int :: 0 <= k && k < len(p.Function) && p.Function[k] == l.Line[j].Function
+
+// ---- C09: sample index selection stays inside the sample types ----
+//@ func sampleTypes
+//@   requires p != nil
+//@   requires forall i int :: 0 <= i && i < len(p.SampleType) ==> p.SampleType[i] != nil
+//@   ensures len(result) == len(p.SampleType)
+//@   loop 1
+//@     invariant 0 <= $i && $i <= len(p.SampleType) && len(types) == len(p.SampleType)
+//@ func Profile.SampleIndexByName
+//@   requires p != nil
+//@   requires forall i int :: 0 <= i && i < len(p.SampleType) ==> p.SampleType[i] != nil
+//@   ensures inrange: result1 == nil ==> -1 <= result0 && result0 < len(p.SampleType) && (len(p.SampleType) > 0 ==> result0 >= 0)
+//@   ensures frame: len(p.SampleType) == old(len(p.SampleType))
+//@   loop 1
+//@     invariant 0 <= $i && $i <= len(p.SampleType)
+//@   loop 2
+//@     invariant 0 <= $i && $i <= len(p.SampleType)
